@@ -1,5 +1,6 @@
 import RsslVerif.Lemmas.ConstEvalNoPanic
 import RsslVerif.Gen.EvalSites
+import RsslVerif.Lemmas.ConstEvalFloatRound
 /-!
 # C13 — compile-time constant evaluation matches run-time semantics
 
@@ -113,6 +114,87 @@ theorem literal_neg_exact (x : Int) (hx : fitsLit x = true) (r : Constant)
 /-- non-vacuity of `literal_exact`: `2^63 * 2^63` is evaluated exactly; `2^64 * 2^64` is refused -/
 example : applyOp .Multiply [.intLit (2 ^ 63), .intLit (2 ^ 63)] = .ok (.intLit (2 ^ 126)) := by decide
 example : applyOp .Multiply [.intLit (2 ^ 64), .intLit (2 ^ 64)] = .error .notConst := by decide
+
+/-! ## the float conversions used by constant casts are the IEEE-754 / Rust `as` conversions
+
+`consteval_agrees` compares the evaluator with `Spec.HlslConst`, and both take the float conversions from
+`Model.ConstEvalFloat`.  The theorems below remove that common assumption: the model's `round` (integer → float,
+binary64 → binary32) is the correctly rounded result in the sense of IEEE 754 round-to-nearest-ties-to-even
+(`Spec.Dec2Bin.IsNearestEven`, the same statement property C10 proves for decimal literals), widening is exact, and
+float → integer truncates toward zero and saturates. -/
+
+open RsslVerif.Model.ConstEvalFloat in
+/-- **Round to nearest, ties to even.**  For every binary format with at least one stored significand bit and two
+    exponent bits (binary32 and binary64 are the instances used), every magnitude `m · 2^e` (`m > 0`, any `e`):
+    the bit pattern `round f false m e` is the one IEEE 754 prescribes for the exact rational `m · 2^e` — no
+    representable value is nearer, a tie goes to the even significand, subnormals are gradual, values at or above
+    `2^(emax+1)` after rounding become `+∞`; and a negative value is its magnitude's pattern plus the sign bit. -/
+theorem float_round_nearest_even (f : Fmt) (hp : 1 ≤ f.mant) (he : 2 ≤ f.exp) (m : Nat) (e : Int) (hm : 0 < m) :
+    RsslVerif.Spec.Dec2Bin.IsNearestEven (RsslVerif.Lemmas.ConstEvalFloat.toSpec f)
+      (RsslVerif.Lemmas.ConstEvalFloat.num m e) (RsslVerif.Lemmas.ConstEvalFloat.den e) (round f false m e) ∧
+    round f true m e = f.signBit + round f false m e :=
+  ⟨RsslVerif.Lemmas.ConstEvalFloat.round_isNearestEven f hp he m e hm, RsslVerif.Lemmas.ConstEvalFloat.round_neg f hp m e⟩
+
+open RsslVerif.Model.ConstEvalFloat in
+/-- **`(float)z`, `(double)z` for an integer constant** (`z as f32` / `z as f64`): the correctly rounded value of
+    `|z|`, with the sign of `z`; zero gives `+0`. -/
+theorem int_to_float_nearest_even (f : Fmt) (hp : 1 ≤ f.mant) (he : 2 ≤ f.exp) (z : Int) :
+    (0 < z → RsslVerif.Spec.Dec2Bin.IsNearestEven (RsslVerif.Lemmas.ConstEvalFloat.toSpec f) z.natAbs 1 (ofInt f z)) ∧
+    (z < 0 → ofInt f z = f.signBit + ofInt f (-z)) ∧ ofInt f 0 = 0 := by
+  refine ⟨RsslVerif.Lemmas.ConstEvalFloat.ofInt_isNearestEven f hp he z, ?_, ?_⟩
+  · intro hz
+    rw [RsslVerif.Lemmas.ConstEvalFloat.ofInt_eq f hp, RsslVerif.Lemmas.ConstEvalFloat.ofInt_eq f hp]
+    have h1 : ¬ (-z < 0) := by omega
+    have h2 : ¬ (0 < z) := by omega
+    simp [hz, h2]
+  · rw [RsslVerif.Lemmas.ConstEvalFloat.ofInt_eq f hp]; simp [RsslVerif.Spec.Dec2Bin.nearestRat]
+
+open RsslVerif.Model.ConstEvalFloat in
+/-- **`(float)d` for a finite double constant** (and any finite float → float conversion): the sign is kept and the
+    magnitude `m · 2^e` is correctly rounded to the target format (overflow to infinity, underflow to subnormals/zero);
+    infinities are kept. -/
+theorem float_to_float_nearest_even (src dst : Fmt) (hp : 1 ≤ dst.mant) (he : 2 ≤ dst.exp) (bits : Nat) (n : Bool) (m : Nat) (e : Int)
+    (hd : decode src bits = .fin n m e) :
+    convert src dst bits = (if n then dst.signBit else 0) + round dst false m e ∧
+    (0 < m → RsslVerif.Spec.Dec2Bin.IsNearestEven (RsslVerif.Lemmas.ConstEvalFloat.toSpec dst)
+      (RsslVerif.Lemmas.ConstEvalFloat.num m e) (RsslVerif.Lemmas.ConstEvalFloat.den e) (round dst false m e)) := by
+  refine ⟨?_, RsslVerif.Lemmas.ConstEvalFloat.round_isNearestEven dst hp he m e⟩
+  rw [RsslVerif.Lemmas.ConstEvalFloat.convert_fin src dst hp bits n m e hd,
+    RsslVerif.Lemmas.ConstEvalFloat.round_eq_nearestRat dst hp]
+  simp
+
+open RsslVerif.Model.ConstEvalFloat in
+/-- **`(double)f` for a finite float constant loses nothing**: the binary64 pattern encodes a significand/exponent
+    pair of exactly the same value (both sides counted in units of `2^-1074`), with the same sign. -/
+theorem float_widen_exact (bits : Nat) (n : Bool) (m : Nat) (e : Int) (hd : decode f32 bits = .fin n m e) :
+    ∃ (m' : Nat) (q' : Int), -1074 ≤ q' ∧ m' ≤ 2 ^ 53 ∧
+      m' * 2 ^ (q' + 1074).toNat = m * 2 ^ (e + 1074).toNat ∧
+      convert f32 f64 bits = (if n then f64.signBit else 0) + RsslVerif.Spec.Dec2Bin.encode RsslVerif.Spec.Dec2Bin.binary64 m' q' :=
+  RsslVerif.Lemmas.ConstEvalFloat.widen_exact bits n m e hd
+
+open RsslVerif.Model.ConstEvalFloat in
+/-- **`(int)x`, `(uint)x` for a float constant** (`v as i32` / `v as u32`): a finite `± m · 2^e` is truncated toward
+    zero (`mag = ⌊m · 2^e⌋`, stated cross-multiplied) and then saturated to the target range; `±∞` saturates; NaN gives 0;
+    the result is always inside the range. -/
+theorem float_to_int_trunc_saturate (lo hi : Int) (h0 : lo ≤ 0) (h1 : 0 ≤ hi) :
+    (∀ (n : Bool) (m : Nat) (e : Int), ∃ mag : Nat,
+        mag * RsslVerif.Lemmas.ConstEvalFloat.den e ≤ RsslVerif.Lemmas.ConstEvalFloat.num m e ∧
+        RsslVerif.Lemmas.ConstEvalFloat.num m e < (mag + 1) * RsslVerif.Lemmas.ConstEvalFloat.den e ∧
+        toIntSat lo hi (.fin n m e) = RsslVerif.Lemmas.ConstEvalFloat.clamp lo hi (if n then -(mag : Int) else mag)) ∧
+    (∀ n p, toIntSat lo hi (.nan n p) = 0) ∧
+    (∀ n, toIntSat lo hi (.inf n) = if n then lo else hi) ∧
+    (∀ v, lo ≤ toIntSat lo hi v ∧ toIntSat lo hi v ≤ hi) :=
+  ⟨RsslVerif.Lemmas.ConstEvalFloat.toIntSat_fin lo hi, fun _ _ => rfl, fun _ => rfl,
+   RsslVerif.Lemmas.ConstEvalFloat.toIntSat_range lo hi h0 h1⟩
+
+open RsslVerif.Model.ConstEvalFloat in
+/-- non-vacuity: binary32 and binary64 satisfy the format hypotheses; `16777217` is a tie and rounds to the even
+    neighbour `16777216.0f`; `3e9f` saturates to `INT_MAX`; `-1.5f` truncates to `-1`, which saturates to `0u` -/
+example : (1 ≤ f32.mant ∧ 2 ≤ f32.exp) ∧ (1 ≤ f64.mant ∧ 2 ≤ f64.exp) ∧
+    ofInt f32 16777217 = 0x4b800000 ∧ ofInt f32 16777219 = 0x4b800002 ∧
+    toIntSat (-(2 ^ 31)) (2 ^ 31 - 1) (decode f32 0x4f32d05e) = 2147483647 ∧
+    toIntSat (-(2 ^ 31)) (2 ^ 31 - 1) (decode f32 0xbfc00000) = -1 ∧
+    toIntSat 0 (2 ^ 32 - 1) (decode f32 0xbfc00000) = 0 := by decide
 
 /-! ## the positions that demand a constant -/
 
